@@ -84,6 +84,7 @@ package outlierdetection
 
 //@ func (*outlierDetectionBalancer).failurePercentageAlgorithm
 //@   prop C40
+//@   opt triggers idxmark
 //@   requires b != nil && b.endpoints != nil && b.cfg != nil && b.cfg.FailurePercentageEjection != nil
 //@   loop 1 invariant allAtLeast(endpointsToConsider, b.cfg.FailurePercentageEjection.RequestVolume)
 //@   assert at call ejectEndpoint#1 arg0 == b && arg1 == epInfo && rvOf(epInfo) >= b.cfg.FailurePercentageEjection.RequestVolume
@@ -97,6 +98,7 @@ package outlierdetection
 
 //@ func (*outlierDetectionBalancer).successRateAlgorithm
 //@   prop C40
+//@   opt triggers idxmark
 //@   requires b != nil && b.endpoints != nil && b.cfg != nil && b.cfg.SuccessRateEjection != nil
 //@   loop 1 invariant allAtLeast(endpointsToConsider, b.cfg.SuccessRateEjection.RequestVolume) && ejectionCfg == b.cfg.SuccessRateEjection && ejectionCfg != nil
 //@   assert at call ejectEndpoint#1 arg0 == b && arg1 == epInfo && rvOf(epInfo) >= b.cfg.SuccessRateEjection.RequestVolume
